@@ -121,17 +121,13 @@ Proof.
 Qed.
 
 (* ------------------------------------------------------------------ C12_e2e_write
-   (a) its two premises are satisfiable: total conversions;
-   (b) they are NOT satisfiable by what Run.check_case passes (imp_of over a finite table): such a function is None
-       beyond the largest listed payload, so "forall x, exists j, exp_c x = Some j ..." fails for every table. *)
-Example C12_e2e_write_applies_total : forall v r,
-  e2e_write (fun x => Some (S x)) (fun j => Some (pred j)) (fun x => Some (x + 2)) (fun j => Some (j - 2)) v r
-  = (Some v, Some r).
-Proof.
-  intros v r. apply C12_e2e_write; intro x.
-  - exists (S x). split; reflexivity.
-  - exists (x + 2). split; [reflexivity|]. cbv beta. rewrite Nat.add_sub. reflexivity.
-Qed.
+   History: the first version of the theorem had the premises "forall x, exists j, exp_c x = Some j /\ imp_n j = Some x"
+   (and the same for exp_n / imp_c) over ALL value ids.  (a) they are satisfiable by total conversions, (b) they are NOT
+   satisfiable by what Run.check_case passes (imp_of over a finite table): such a function is None beyond the largest
+   listed payload.  The theorem is now the pointwise statement (Properties.v) and applies to tables (c). *)
+Definition old_e2e_premise (ex im : nat -> option nat) : Prop := forall x, exists j, ex x = Some j /\ im j = Some x.
+Example C12_e2e_write_old_premise_total : old_e2e_premise (fun x => Some (S x)) (fun j => Some (pred j)).
+Proof. intro x. exists (S x). split; reflexivity. Qed.
 
 Fixpoint tbl_bound (l : list (nat * nat * option nat)) : nat :=
   match l with [] => 0 | (_, j, _) :: r => Nat.max (S j) (tbl_bound r) end.
@@ -144,22 +140,34 @@ Proof.
   - apply Nat.eqb_eq in E. lia.
   - rewrite andb_false_r. apply IH. lia.
 Qed.
-(* the premise of C12_e2e_write cannot hold for the environment of a CE2E case *)
-Lemma C12_e2e_write_premise_unsatisfiable_for_tables : forall exp dt (imp_n : nat -> option nat),
-  ~ (forall x, exists j, imp_of exp dt x = Some j /\ imp_n j = Some x).
+Lemma C12_e2e_write_old_premise_unsatisfiable_for_tables : forall exp dt (imp_n : nat -> option nat),
+  ~ old_e2e_premise (imp_of exp dt) imp_n.
 Proof.
   intros exp dt imp_n H. destruct (H (tbl_bound exp)) as [j [E _]].
   rewrite imp_of_beyond in E by lia. discriminate.
 Qed.
-(* what does hold for tables (pointwise form, no quantifier over all values) *)
-Lemma C12_e2e_write_pointwise : forall exp_c imp_n exp_n imp_c v r j1 j2,
-  exp_c v = Some j1 -> imp_n j1 = Some v -> exp_n r = Some j2 -> imp_c j2 = Some r ->
-  e2e_write exp_c imp_n exp_n imp_c v r = (Some v, Some r).
-Proof. intros. unfold e2e_write. rewrite H, H0, H1, H2. reflexivity. Qed.
-Example C12_e2e_write_pointwise_on_tables :
+(* (c) the theorem as it is now, at total conversions and at tables *)
+Example C12_e2e_write_applies_total : forall v r,
+  e2e_write (fun x => Some (S x)) (fun j => Some (pred j)) (fun x => Some (x + 2)) (fun j => Some (j - 2)) v r
+  = (Some v, Some r).
+Proof.
+  intros v r. apply C12_e2e_write.
+  - exists (S v). split; reflexivity.
+  - exists (r + 2). split; [reflexivity|]. cbv beta. rewrite Nat.add_sub. reflexivity.
+Qed.
+Example C12_e2e_write_applies_on_tables :
   let exp := [(0, 5, Some 50); (0, 6, Some 60)] in let imp := [(0, 50, Some 5); (0, 60, Some 6)] in
   e2e_write (imp_of exp 0) (imp_of imp 0) (imp_of exp 0) (imp_of imp 0) 5 6 = (Some 5, Some 6).
-Proof. cbv zeta. eapply C12_e2e_write_pointwise; reflexivity. Qed.
+Proof. cbv zeta. apply C12_e2e_write; eexists; split; reflexivity. Qed.
+Example C12_e2e_struct_members_applies :
+  struct_get 0 (struct_validate [(0, 11); (1, 22)] [(1, 33)]) = Some 11 /\
+  struct_get 1 (struct_validate [(0, 11); (1, 22)] [(1, 33)]) = Some 33 /\
+  map fst (struct_validate [(0, 11); (1, 22)] [(1, 33)]) = [0; 1].
+Proof.
+  destruct (C12_e2e_struct_members [(0, 11); (1, 22)] [(1, 33)]) as [G K].
+  split; [rewrite G; reflexivity|]. split; [rewrite G; reflexivity|].
+  rewrite K; [reflexivity|]. intros kv [H|[]]. subst kv. right. left. reflexivity.
+Qed.
 
 (* ------------------------------------------------------------------ concurrent model: prefixes of the schedule of
    C12_conc_demo (two callers, same cache key, answers in opposite order, an update in between) *)
